@@ -5,7 +5,7 @@ reg("C15",
     check_imports=["Model.BlockIndex", "Check.C15_Check"],
     case_type="c15_case", verdicts="c15_verdicts",
     property_modules=["Properties.C15"],
-    theorems=["c15_indexer", "c15_provider", "c15_indexed_provider", "c15_generic_provider_ok",
+    theorems=["c15_unfixed_upper_bound_refuted", "c15_indexer", "c15_provider", "c15_indexed_provider", "c15_generic_provider_ok",
               "c15_stream_complete", "c15_stream_tight", "c15_fallback", "c15_passes_filter_is_per_bundle"],
     proof_files=["Base/Prelude.v", "Model/BlockIndex.v", "Spec/C15_Spec.v",
                  "Proofs/PreludeFacts.v", "Proofs/C15_Sets.v", "Proofs/C15_Arith.v", "Proofs/C15_Provider.v",
